@@ -15,11 +15,372 @@ import (
 //   - the clause for *syntax.Subshell in a type switch over syntax.Command,
 //   - the clause of a switch over BinaryCmd.Op that lists syntax.Pipe,
 //   - the body of an `if` whose condition reads Stmt.Background.
-// Inside a region, a call that can change the shell state the property lists (variables, functions, aliases,
-// options, directory, positional parameters) — transitively, over statically resolved calls and interface
-// implementations — must not run on the parent runner: its receiver (or *Runner argument) must be a local whose every
-// definition is a call of subshell()/Subshell().
+//
+// Effects are parameter-sensitive: W[f][i] says that f may change shell state the property lists (variables,
+// functions, aliases, options, directory, positional parameters) *reachable from its i-th parameter* (-1 is the
+// receiver). Base facts: a store through `x.F…` where F is one of the state fields of Runner and x is rooted at
+// parameter i; an implementation of expand.WriteEnviron.Set writes through its receiver. A call g(…a_j…) with W[g][j]
+// makes W[f][i] for every parameter i that a_j is rooted at. "Rooted at" follows selectors, indexing, address-of,
+// type assertions, reference-typed elements of composite literals (expandEnv{r}), locals through all their
+// assignments, and call results (conservatively derived from the receiver and every argument) — except results of
+// subshell()/Subshell(), which are copies. Function literals are part of the function that contains them, except
+// those stored into struct fields (callbacks somebody else runs).
+//
+// Inside a region, no call with W[g][j] may have an actual a_j rooted at the enclosing function's receiver or
+// parameters: what it changes must be a copy. So `r2 := r.subshell(false); r2.stmts(…)` is fine, and so is a helper
+// `r.runIsolated(…)` that makes the copy itself; `r.stmt(…)` or `r.fields(…)` on the parent is not.
 var c27StateFields = []string{"writeEnv", "Vars", "Funcs", "alias", "opts", "Dir", "Params"}
+
+type effSlot struct {
+	fn  *types.Func
+	idx int
+}
+
+type effectAnalysis struct {
+	g         *refGraph
+	state     map[*types.Var]bool
+	copyFns   map[*types.Func]bool
+	w         map[effSlot]string // witness
+	impls     func(*types.Func) []*types.Func
+	slotCache map[*types.Func]map[types.Object]int
+}
+
+func (a *effectAnalysis) slots(fo *types.Func) map[types.Object]int {
+	if m, ok := a.slotCache[fo]; ok {
+		return m
+	}
+	m := map[types.Object]int{}
+	fd := a.g.decl[fo]
+	info := a.g.pkgOf[fo].TypesInfo
+	if fd.Recv != nil && len(fd.Recv.List) > 0 && len(fd.Recv.List[0].Names) > 0 {
+		m[info.Defs[fd.Recv.List[0].Names[0]]] = -1
+	}
+	i := 0
+	for _, f := range fd.Type.Params.List {
+		if len(f.Names) == 0 {
+			i++
+			continue
+		}
+		for _, nm := range f.Names {
+			m[info.Defs[nm]] = i
+			i++
+		}
+	}
+	a.slotCache[fo] = m
+	return m
+}
+
+func refLike(t types.Type) bool {
+	switch t.Underlying().(type) {
+	case *types.Pointer, *types.Map, *types.Slice, *types.Interface, *types.Signature, *types.Chan:
+		return true
+	case *types.Struct:
+		return true // may hold references
+	}
+	return false
+}
+
+// roots returns the objects (parameters, receiver, or — when keepLocals — copy locals are dropped) an expression is rooted at.
+func (a *effectAnalysis) roots(info *types.Info, body ast.Node, e ast.Expr, depth int, seen map[types.Object]bool) map[types.Object]bool {
+	out := map[types.Object]bool{}
+	if e == nil || depth > 12 {
+		return out
+	}
+	add := func(m map[types.Object]bool) {
+		for k := range m {
+			out[k] = true
+		}
+	}
+	switch x := ast.Unparen(e).(type) {
+	case *ast.Ident:
+		obj := info.ObjectOf(x)
+		v, ok := obj.(*types.Var)
+		if !ok || v.IsField() {
+			return out
+		}
+		if v.Kind() == types.ParamVar || v.Kind() == types.RecvVar {
+			out[obj] = true
+			return out
+		}
+		if seen[obj] {
+			return out
+		}
+		seen[obj] = true
+		// local: union over its assignments
+		ast.Inspect(body, func(n ast.Node) bool {
+			switch s := n.(type) {
+			case *ast.AssignStmt:
+				for i, l := range s.Lhs {
+					id, ok := l.(*ast.Ident)
+					if !ok || info.ObjectOf(id) != obj {
+						continue
+					}
+					if len(s.Rhs) == len(s.Lhs) {
+						add(a.roots(info, body, s.Rhs[i], depth+1, seen))
+					} else if len(s.Rhs) == 1 {
+						add(a.roots(info, body, s.Rhs[0], depth+1, seen))
+					}
+				}
+			case *ast.ValueSpec:
+				for i, nm := range s.Names {
+					if info.ObjectOf(nm) == obj && i < len(s.Values) {
+						add(a.roots(info, body, s.Values[i], depth+1, seen))
+					}
+				}
+			case *ast.RangeStmt:
+				for _, kv := range []ast.Expr{s.Key, s.Value} {
+					if id, ok := kv.(*ast.Ident); ok && kv != nil && info.ObjectOf(id) == obj {
+						add(a.roots(info, body, s.X, depth+1, seen))
+					}
+				}
+			case *ast.TypeSwitchStmt:
+				// x := y.(type): the clause objects are implicit; handled by the generic fallthrough below
+			}
+			return true
+		})
+		return out
+	case *ast.SelectorExpr:
+		if _, isPkg := info.ObjectOf(x.Sel).(*types.Func); isPkg && info.Selections[x] == nil {
+			return out
+		}
+		return a.roots(info, body, x.X, depth+1, seen)
+	case *ast.IndexExpr:
+		return a.roots(info, body, x.X, depth+1, seen)
+	case *ast.SliceExpr:
+		return a.roots(info, body, x.X, depth+1, seen)
+	case *ast.StarExpr:
+		return a.roots(info, body, x.X, depth+1, seen)
+	case *ast.UnaryExpr:
+		return a.roots(info, body, x.X, depth+1, seen)
+	case *ast.TypeAssertExpr:
+		return a.roots(info, body, x.X, depth+1, seen)
+	case *ast.CompositeLit:
+		for _, el := range x.Elts {
+			v := el
+			if kv, ok := el.(*ast.KeyValueExpr); ok {
+				v = kv.Value
+			}
+			if t := info.TypeOf(v); t != nil && refLike(t) {
+				add(a.roots(info, body, v, depth+1, seen))
+			}
+		}
+		return out
+	case *ast.CallExpr:
+		if callee := calleeOf(info, x); callee != nil && a.copyFns[callee.Origin()] {
+			return out // a copy
+		}
+		if t := info.TypeOf(x); t != nil {
+			if tup, ok := t.(*types.Tuple); ok {
+				any := false
+				for i := 0; i < tup.Len(); i++ {
+					if refLike(tup.At(i).Type()) {
+						any = true
+					}
+				}
+				if !any {
+					return out
+				}
+			} else if !refLike(t) {
+				return out // a string, number or bool carries no reference to shell state
+			}
+		}
+		if sel, ok := ast.Unparen(x.Fun).(*ast.SelectorExpr); ok && info.Selections[sel] != nil {
+			add(a.roots(info, body, sel.X, depth+1, seen))
+		}
+		for _, arg := range x.Args {
+			if t := info.TypeOf(arg); t != nil && refLike(t) {
+				add(a.roots(info, body, arg, depth+1, seen))
+			}
+		}
+		return out
+	}
+	return out
+}
+
+func (a *effectAnalysis) solve() {
+	var fns []*types.Func
+	for fo, fd := range a.g.decl {
+		if fd.Body != nil {
+			fns = append(fns, fo)
+		}
+	}
+	sort.Slice(fns, func(i, j int) bool { return funcObjKey(fns[i]) < funcObjKey(fns[j]) })
+	mark := func(fo *types.Func, idx int, why string) bool {
+		k := effSlot{fo, idx}
+		if _, ok := a.w[k]; ok {
+			return false
+		}
+		a.w[k] = why
+		return true
+	}
+	for changed := true; changed; {
+		changed = false
+		next := map[effSlot]string{}
+		for _, fo := range fns {
+			fd := a.g.decl[fo]
+			info := a.g.pkgOf[fo].TypesInfo
+			sl := a.slots(fo)
+			stored := storedLits(fd.Body)
+			note := func(rootsOf map[types.Object]bool, why string) {
+				for o := range rootsOf {
+					if idx, ok := sl[o]; ok {
+						if _, have := a.w[effSlot{fo, idx}]; !have {
+							if _, queued := next[effSlot{fo, idx}]; !queued {
+								next[effSlot{fo, idx}] = why
+							}
+						}
+					}
+				}
+			}
+			var visit func(n ast.Node) bool
+			visit = func(n ast.Node) bool {
+				switch x := n.(type) {
+				case *ast.FuncLit:
+					return !stored[x]
+				case *ast.AssignStmt:
+					for _, l := range x.Lhs {
+						if base, fv := stateStoreBase(info, l, a.state); fv != nil {
+							note(a.roots(info, fd.Body, base, 0, map[types.Object]bool{}), "stores into Runner."+fv.Name())
+						}
+					}
+				case *ast.IncDecStmt:
+					if base, fv := stateStoreBase(info, x.X, a.state); fv != nil {
+						note(a.roots(info, fd.Body, base, 0, map[types.Object]bool{}), "stores into Runner."+fv.Name())
+					}
+				case *ast.CallExpr:
+					if (isBuiltinCall(info, x, "delete") || isBuiltinCall(info, x, "clear")) && len(x.Args) > 0 {
+						if base, fv := stateStoreBase(info, x.Args[0], a.state); fv != nil {
+							note(a.roots(info, fd.Body, base, 0, map[types.Object]bool{}), "removes from Runner."+fv.Name())
+						}
+						return true
+					}
+					callee := calleeOf(info, x)
+					if callee == nil {
+						return true
+					}
+					callee = callee.Origin()
+					if a.copyFns[callee] {
+						return true
+					}
+					targets := append([]*types.Func{callee}, a.impls(callee)...)
+					for _, tg := range targets {
+						for k, why := range a.w {
+							if k.fn != tg {
+								continue
+							}
+							var actual ast.Expr
+							if k.idx == -1 {
+								if sel, ok := ast.Unparen(x.Fun).(*ast.SelectorExpr); ok {
+									actual = sel.X
+								}
+							} else if k.idx < len(x.Args) {
+								actual = x.Args[k.idx]
+							} else if len(x.Args) > 0 {
+								actual = x.Args[len(x.Args)-1]
+							}
+							if actual == nil {
+								continue
+							}
+							_ = why
+							note(a.roots(info, fd.Body, actual, 0, map[types.Object]bool{}), "calls "+funcObjKey(tg))
+						}
+					}
+				}
+				return true
+			}
+			ast.Inspect(fd.Body, visit)
+		}
+		var ks []effSlot
+		for k := range next {
+			ks = append(ks, k)
+		}
+		sort.Slice(ks, func(i, j int) bool {
+			if ks[i].fn != ks[j].fn {
+				return funcObjKey(ks[i].fn) < funcObjKey(ks[j].fn)
+			}
+			return ks[i].idx < ks[j].idx
+		})
+		for _, k := range ks {
+			if mark(k.fn, k.idx, next[k]) {
+				changed = true
+			}
+		}
+	}
+}
+
+// stateStoreBase: for an lvalue x.F… where F is a state field of Runner, returns x and F.
+func stateStoreBase(info *types.Info, l ast.Expr, state map[*types.Var]bool) (ast.Expr, *types.Var) {
+	e := ast.Unparen(l)
+	for {
+		switch x := e.(type) {
+		case *ast.IndexExpr:
+			e = ast.Unparen(x.X)
+			continue
+		case *ast.StarExpr:
+			e = ast.Unparen(x.X)
+			continue
+		case *ast.SelectorExpr:
+			if fv, ok := info.ObjectOf(x.Sel).(*types.Var); ok && fv.IsField() && state[fv] {
+				return x.X, fv
+			}
+			e = ast.Unparen(x.X)
+			continue
+		}
+		return nil, nil
+	}
+}
+
+// storedLits: function literals stored into struct fields (composite-literal values, assignments to selectors).
+func storedLits(n ast.Node) map[*ast.FuncLit]bool {
+	stored := map[*ast.FuncLit]bool{}
+	ast.Inspect(n, func(x ast.Node) bool {
+		switch c := x.(type) {
+		case *ast.KeyValueExpr:
+			if lit, ok := ast.Unparen(c.Value).(*ast.FuncLit); ok {
+				stored[lit] = true
+			}
+		case *ast.AssignStmt:
+			for i, l := range c.Lhs {
+				if _, isSel := ast.Unparen(l).(*ast.SelectorExpr); isSel && i < len(c.Rhs) {
+					if lit, ok := ast.Unparen(c.Rhs[i]).(*ast.FuncLit); ok {
+						stored[lit] = true
+					}
+				}
+			}
+		}
+		return true
+	})
+	return stored
+}
+
+func (a *effectAnalysis) chain(k effSlot) string {
+	s := funcObjKey(k.fn)
+	seen := map[effSlot]bool{}
+	for !seen[k] {
+		seen[k] = true
+		w := a.w[k]
+		if len(w) > 6 && w[:6] == "calls " {
+			var next *effSlot
+			for k2 := range a.w {
+				if funcObjKey(k2.fn) == w[6:] {
+					k3 := k2
+					if next == nil || k3.idx < next.idx {
+						next = &k3
+					}
+				}
+			}
+			if next == nil {
+				break
+			}
+			s += " → " + funcObjKey(next.fn)
+			k = *next
+			continue
+		}
+		s += " (" + w + ")"
+		break
+	}
+	return s
+}
 
 func checkIsolationRegions(p *Prog, r *Result, rule string) {
 	pkg := p.Pkg("interp")
@@ -43,210 +404,54 @@ func checkIsolationRegions(p *Prog, r *Result, rule string) {
 			r.Undecided(rule, "Runner."+name+"#state field", token.NoPos, "the Runner field "+name+" that holds state the property lists no longer exists: the table of state fields must be re-read")
 		}
 	}
-	isRunnerPtr := func(t types.Type) bool {
-		pt, ok := t.(*types.Pointer)
-		return ok && namedOf(pt.Elem()) == runnerT
-	}
-
-	g := buildRefGraph(p)
-	// direct writers: methods that store into a state field through their receiver, or implement WriteEnviron.Set
-	direct := map[*types.Func]string{}
-	for fo, fd := range g.decl {
-		if fd.Body == nil || fd.Recv == nil || len(fd.Recv.List) == 0 {
-			continue
-		}
-		finfo := g.pkgOf[fo].TypesInfo
-		sig := fo.Type().(*types.Signature)
-		if fo.Name() == "Set" {
-			if wi := lookupType(p.Pkg("expand"), "WriteEnviron"); wi != nil {
-				if ifc, ok := wi.Underlying().(*types.Interface); ok && (types.Implements(sig.Recv().Type(), ifc) || types.Implements(types.NewPointer(sig.Recv().Type()), ifc)) {
-					direct[fo] = "implements expand.WriteEnviron.Set"
-					continue
-				}
-			}
-		}
-		if !isRunnerPtr(sig.Recv().Type()) || len(fd.Recv.List[0].Names) == 0 {
-			continue
-		}
-		recvObj := finfo.Defs[fd.Recv.List[0].Names[0]]
-		rootIsRecv := func(e ast.Expr) (*types.Var, bool) {
-			for {
-				switch x := ast.Unparen(e).(type) {
-				case *ast.IndexExpr:
-					e = x.X
-					continue
-				case *ast.StarExpr:
-					e = x.X
-					continue
-				case *ast.SelectorExpr:
-					if id, ok := ast.Unparen(x.X).(*ast.Ident); ok && finfo.ObjectOf(id) == recvObj {
-						fv, _ := finfo.ObjectOf(x.Sel).(*types.Var)
-						return fv, fv != nil
-					}
-					e = x.X
-					continue
-				}
-				return nil, false
-			}
-		}
-		ast.Inspect(fd.Body, func(n ast.Node) bool {
-			switch x := n.(type) {
-			case *ast.AssignStmt:
-				for _, l := range x.Lhs {
-					if fv, ok := rootIsRecv(l); ok && state[fv] {
-						direct[fo] = "stores into Runner." + fv.Name()
-					}
-				}
-			case *ast.IncDecStmt:
-				if fv, ok := rootIsRecv(x.X); ok && state[fv] {
-					direct[fo] = "stores into Runner." + fv.Name()
-				}
-			case *ast.CallExpr:
-				if isBuiltinCall(finfo, x, "delete") || isBuiltinCall(finfo, x, "clear") {
-					if fv, ok := rootIsRecv(x.Args[0]); ok && state[fv] {
-						direct[fo] = "removes from Runner." + fv.Name()
-					}
-				}
-			}
-			return true
-		})
-	}
-	// call edges that do not descend into stored function literals (those run when somebody calls them, and the
-	// caller is judged then); immediately invoked, go'd, deferred and wg.Go'd literals are part of the function.
-	callEdges := map[*types.Func]map[*types.Func]bool{}
-	var ifaceImpls func(m *types.Func) []*types.Func
-	{
-		byName := map[string][]*types.Func{}
-		for fo := range g.decl {
-			if fo.Type().(*types.Signature).Recv() != nil {
-				byName[fo.Name()] = append(byName[fo.Name()], fo)
-			}
-		}
-		ifaceImpls = func(m *types.Func) []*types.Func {
-			recv := m.Type().(*types.Signature).Recv()
-			if recv == nil {
-				return nil
-			}
-			ifc, ok := recv.Type().Underlying().(*types.Interface)
-			if !ok {
-				return nil
-			}
-			var out []*types.Func
-			for _, fo := range byName[m.Name()] {
-				rt := fo.Type().(*types.Signature).Recv().Type()
-				if types.Implements(rt, ifc) || types.Implements(types.NewPointer(rt), ifc) {
-					out = append(out, fo)
-				}
-			}
-			return out
-		}
-	}
-	// Function literals stored into a struct field (composite-literal value, or assignment to a selector) are
-	// callbacks somebody else runs later: their calls are not the enclosing function's. Every other literal
-	// (returned iterator, local closure, immediately invoked, go/defer, argument) is part of the function.
-	var collect func(finfo *types.Info, n ast.Node, set map[*types.Func]bool)
-	collect = func(finfo *types.Info, n ast.Node, set map[*types.Func]bool) {
-		stored := map[*ast.FuncLit]bool{}
-		ast.Inspect(n, func(x ast.Node) bool {
-			switch c := x.(type) {
-			case *ast.KeyValueExpr:
-				if lit, ok := ast.Unparen(c.Value).(*ast.FuncLit); ok {
-					stored[lit] = true
-				}
-			case *ast.AssignStmt:
-				for i, l := range c.Lhs {
-					if _, isSel := ast.Unparen(l).(*ast.SelectorExpr); isSel && i < len(c.Rhs) {
-						if lit, ok := ast.Unparen(c.Rhs[i]).(*ast.FuncLit); ok {
-							stored[lit] = true
-						}
-					}
-				}
-			}
-			return true
-		})
-		ast.Inspect(n, func(x ast.Node) bool {
-			switch c := x.(type) {
-			case *ast.FuncLit:
-				return !stored[c]
-			case *ast.CallExpr:
-				if callee := calleeOf(finfo, c); callee != nil {
-					callee = callee.Origin()
-					set[callee] = true
-					for _, im := range ifaceImpls(callee) {
-						set[im] = true
-					}
-				}
-			}
-			return true
-		})
-	}
-	for fo, fd := range g.decl {
-		if fd.Body == nil {
-			continue
-		}
-		set := map[*types.Func]bool{}
-		collect(g.pkgOf[fo].TypesInfo, fd.Body, set)
-		callEdges[fo] = set
-	}
-	// writers: least fixpoint
-	why := map[*types.Func]string{}
-	for fo, w := range direct {
-		why[fo] = w
-	}
-	for changed := true; changed; { // level by level, so that the recorded chain is a shortest one and does not depend on map order
-		changed = false
-		next := map[*types.Func]string{}
-		for fo, set := range callEdges {
-			if _, ok := why[fo]; ok {
-				continue
-			}
-			var names []*types.Func
-			for c := range set {
-				if _, ok := why[c]; ok {
-					names = append(names, c)
-				}
-			}
-			if len(names) > 0 {
-				sort.Slice(names, func(i, j int) bool { return funcObjKey(names[i]) < funcObjKey(names[j]) })
-				next[fo] = "calls " + funcObjKey(names[0])
-			}
-		}
-		for fo, w := range next {
-			why[fo] = w
-			changed = true
-		}
-	}
-	chain := func(fo *types.Func) string {
-		s := funcObjKey(fo)
-		seen := map[*types.Func]bool{}
-		for !seen[fo] {
-			seen[fo] = true
-			w := why[fo]
-			if len(w) > 6 && w[:6] == "calls " {
-				var next *types.Func
-				for c := range callEdges[fo] {
-					if funcObjKey(c) == w[6:] {
-						next = c
-					}
-				}
-				if next == nil {
-					break
-				}
-				s += " → " + funcObjKey(next)
-				fo = next
-				continue
-			}
-			s += " (" + w + ")"
-			break
-		}
-		return s
-	}
 	subshellFn := lookupFunc(pkg, "Runner.subshell")
 	subshellPub := lookupFunc(pkg, "Runner.Subshell")
 	if subshellFn == nil {
 		r.Fatalf("interp.Runner.subshell not found")
 		return
 	}
+	g := buildRefGraph(p)
+	byName := map[string][]*types.Func{}
+	for fo := range g.decl {
+		if fo.Type().(*types.Signature).Recv() != nil {
+			byName[fo.Name()] = append(byName[fo.Name()], fo)
+		}
+	}
+	impls := func(m *types.Func) []*types.Func {
+		recv := m.Type().(*types.Signature).Recv()
+		if recv == nil {
+			return nil
+		}
+		ifc, ok := recv.Type().Underlying().(*types.Interface)
+		if !ok {
+			return nil
+		}
+		var out []*types.Func
+		for _, fo := range byName[m.Name()] {
+			rt := fo.Type().(*types.Signature).Recv().Type()
+			if types.Implements(rt, ifc) || types.Implements(types.NewPointer(rt), ifc) {
+				out = append(out, fo)
+			}
+		}
+		sort.Slice(out, func(i, j int) bool { return funcObjKey(out[i]) < funcObjKey(out[j]) })
+		return out
+	}
+	ea := &effectAnalysis{g: g, state: state, copyFns: map[*types.Func]bool{subshellFn: true}, w: map[effSlot]string{}, impls: impls, slotCache: map[*types.Func]map[types.Object]int{}}
+	if subshellPub != nil {
+		ea.copyFns[subshellPub] = true
+	}
+	// base: WriteEnviron.Set implementations write through their receiver
+	if wi := lookupType(p.Pkg("expand"), "WriteEnviron"); wi != nil {
+		if ifc, ok := wi.Underlying().(*types.Interface); ok {
+			for _, fo := range byName["Set"] {
+				rt := fo.Type().(*types.Signature).Recv().Type()
+				if types.Implements(rt, ifc) || types.Implements(types.NewPointer(rt), ifc) {
+					ea.w[effSlot{fo, -1}] = "implements expand.WriteEnviron.Set"
+				}
+			}
+		}
+	}
+	ea.solve()
 
 	// regions
 	type region struct {
@@ -331,63 +536,14 @@ func checkIsolationRegions(p *Prog, r *Result, rule string) {
 			r.Undecided(rule, "interp#"+want+" region", token.NoPos, "no "+want+" found in package interp: the place where this isolating construct is run cannot be located")
 		}
 	}
-
+	hasEffect := map[*types.Func]bool{}
+	for k := range ea.w {
+		hasEffect[k.fn] = true
+	}
 	for _, rg := range regions {
-		var recvObj types.Object
-		if rg.fd.Recv != nil && len(rg.fd.Recv.List) > 0 && len(rg.fd.Recv.List[0].Names) > 0 {
-			recvObj = info.Defs[rg.fd.Recv.List[0].Names[0]]
-		}
-		// locals that are only ever defined from subshell()
-		isCopy := func(obj types.Object) bool {
-			if obj == nil || obj == recvObj {
-				return false
-			}
-			defs, ok := 0, true
-			ast.Inspect(rg.fd.Body, func(n ast.Node) bool {
-				as, isAs := n.(*ast.AssignStmt)
-				if !isAs {
-					return true
-				}
-				for i, l := range as.Lhs {
-					id, isID := l.(*ast.Ident)
-					if !isID || info.ObjectOf(id) != obj {
-						continue
-					}
-					defs++
-					if len(as.Rhs) != len(as.Lhs) {
-						ok = false
-						continue
-					}
-					call, isCall := ast.Unparen(as.Rhs[i]).(*ast.CallExpr)
-					if !isCall {
-						ok = false
-						continue
-					}
-					c := calleeOf(info, call)
-					if c == nil || (c != subshellFn && c != subshellPub) {
-						ok = false
-					}
-				}
-				return true
-			})
-			return defs > 0 && ok
-		}
-		rootObj := func(e ast.Expr) types.Object {
-			for {
-				switch x := ast.Unparen(e).(type) {
-				case *ast.SelectorExpr:
-					e = x.X
-					continue
-				case *ast.Ident:
-					return info.ObjectOf(x)
-				case *ast.UnaryExpr:
-					e = x.X
-					continue
-				}
-				return nil
-			}
-		}
+		sl := ea.slots(info.Defs[rg.fd.Name].(*types.Func))
 		n := 0
+		seenKey := map[string]int{}
 		ast.Inspect(rg.body, func(x ast.Node) bool {
 			call, ok := x.(*ast.CallExpr)
 			if !ok {
@@ -398,26 +554,53 @@ func checkIsolationRegions(p *Prog, r *Result, rule string) {
 				return true
 			}
 			callee = callee.Origin()
-			if _, isWriter := why[callee]; !isWriter || callee == subshellFn || callee == subshellPub {
+			if ea.copyFns[callee] {
 				return true
 			}
-			// which runner does it act on?
-			var subjects []ast.Expr
-			if sel, ok := ast.Unparen(call.Fun).(*ast.SelectorExpr); ok && isRunnerPtr(info.TypeOf(sel.X)) {
-				subjects = append(subjects, sel.X)
-			}
-			for _, a := range call.Args {
-				if t := info.TypeOf(a); t != nil && isRunnerPtr(t) {
-					subjects = append(subjects, a)
+			// does it run anything that can change some shell at all (a copy included)?
+			for f := range g.reachable(callee) {
+				if hasEffect[f] {
+					n++
+					break
 				}
 			}
-			for _, s := range subjects {
-				n++
-				obj := rootObj(s)
-				key := fmt.Sprintf("%s#%s: %s.%s", funcKey("interp", rg.fd), rg.name, exprString(s), callee.Name())
-				r.Check(isCopy(obj), rule, key, call.Pos(),
-					"runs on a runner obtained from subshell()",
-					fmt.Sprintf("inside the %s region, %s runs on `%s`, which is not a copy made by subshell(): %s. The isolated construct can change the parent shell", rg.name, callee.Name(), exprString(s), chain(callee)))
+			targets := append([]*types.Func{callee}, impls(callee)...)
+			for _, tg := range targets {
+				var ks []effSlot
+				for k := range ea.w {
+					if k.fn == tg {
+						ks = append(ks, k)
+					}
+				}
+				sort.Slice(ks, func(i, j int) bool { return ks[i].idx < ks[j].idx })
+				for _, k := range ks {
+					var actual ast.Expr
+					if k.idx == -1 {
+						if sel, ok := ast.Unparen(call.Fun).(*ast.SelectorExpr); ok {
+							actual = sel.X
+						}
+					} else if k.idx < len(call.Args) {
+						actual = call.Args[k.idx]
+					}
+					if actual == nil {
+						continue
+					}
+					roots := ea.roots(info, rg.fd.Body, actual, 0, map[types.Object]bool{})
+					onParent := ""
+					for o := range roots {
+						if _, isParam := sl[o]; isParam {
+							onParent = o.Name()
+						}
+					}
+					key := fmt.Sprintf("%s#%s: %s.%s", funcKey("interp", rg.fd), rg.name, exprString(actual), callee.Name())
+					seenKey[key]++
+					if seenKey[key] > 1 {
+						continue
+					}
+					r.Check(onParent == "", rule, key, call.Pos(),
+						"what it can change is a copy made by subshell()",
+						fmt.Sprintf("inside the %s region, %s acts on `%s`, which is rooted at the enclosing function's `%s` and not at a copy made by subshell(): %s. The isolated construct can change the parent shell", rg.name, callee.Name(), exprString(actual), onParent, ea.chain(k)))
+				}
 			}
 			return true
 		})
